@@ -15,6 +15,10 @@ Record fobs := {
   o_table : table;     (* Event.Formatted after the call, sorted by format id *)
   o_frame : bool;      (* Type, CreatedAt and the deep snapshot of the payload are what they were before the call *)
   o_decode : N;        (* Go's own decode of the stored json line vs. the expected image: 0 n/a, 1 equal, 2 different *)
+  o_final : option bytes;  (* Format("json") of the same event re-read later: after every later Process call of the batch (other
+                              events, same goroutine) and after a closing round of Process calls from this and other goroutines *)
+  o_later : N;         (* number of later Process calls (on other events) after which the stored value was first seen changed;
+                          0 when it never changed *)
 }.
 Record pcase := {
   c_node : fnode; c_type : bytes; c_time : option bytes; c_payload : option jv; c_pre : table; c_obs : fobs }.
@@ -33,6 +37,9 @@ Inductive kind :=
 | KParse                 (* observation-only: parsing the stored line does not give exactly created_at, event_type, payload
                             with the time, the type and the JSON image of the payload *)
 | KDecode                (* observation-only: Go's own decoder disagrees with the expected image *)
+| KStoredMutated         (* observation-only: the value stored under json changed after Process had returned (it must stay the
+                            line that was stored, whatever is formatted afterwards); the step of the mismatch is the number of
+                            later Process calls it took *)
 | KLww                   (* format table: a Format result or the final table is not last-writer-wins *)
 | KModel.                (* the harness handed over a value outside the model's grammar (harness defect) *)
 
@@ -97,7 +104,18 @@ Definition run_proc (c : pcase) : list kind :=
      | Some _, Some _, None => [KParse]          (* success reported but nothing is stored under json *)
      | _, _, _ => []
      end
-   else []).
+   else []) ++
+  (* observation-only: the stored value is still the same when re-read after later Process calls on other events; if it is
+     not, the property's oracle is run again on what is there now *)
+  (if obeqb (tget fmt_json (o_table o)) (o_final o) then []
+   else KStoredMutated ::
+        (if writes && negb (o_err o) then
+           match c_time c, c_payload c, o_final o with
+           | Some t, Some v, Some b =>
+               (if single_line b then [] else [KLine]) ++ (if members_ok b (c_type c) v then [] else [KParse])
+           | _, _, _ => []
+           end
+         else [])).
 
 Fixpoint run_table (t : table) (i : N) (ops : list (N * top * option (option bytes))) (final : table) : list (N * N * kind) :=
   match ops with
@@ -113,7 +131,8 @@ Fixpoint run_table (t : table) (i : N) (ops : list (N * top * option (option byt
 
 Definition run_case (c : fcase) : list (N * (N * N * kind)) :=
   match c with
-  | CProc id p => map (fun k => (id, (0, nodekind (c_node p), k))) (run_proc p)
+  | CProc id p =>
+      map (fun k => (id, (match k with KStoredMutated => o_later (c_obs p) | _ => 0 end, nodekind (c_node p), k))) (run_proc p)
   | CTable id init ops final => map (fun m => (id, m)) (run_table init 0 ops final)
   end.
 Definition mismatches (cs : list fcase) : list (N * (N * N * kind)) := flat_map run_case cs.
